@@ -60,6 +60,12 @@ CLAIMED = {
    text="Proof (partial): Lang/Trampoline.v models Interpreter::step / setup_trampoline_call / restore_from_trampoline_frame; c06_step_is_one_instruction and c06_call_depth_is_host_visible hold for every program and state, c06_recursion_costs_no_native_stack for every depth n; the re-entry weak spot is refuted by witness. Translator tie: the set of Rust functions that call call_function*/vm.run is regenerated from src/interpreter on every run and must equal Expected/FactsC06.v (reflexivity). Behavioural tie: 22 trampolined and 33 re-entering call paths x loop sizes, measured with the cfg(tsrun_verif) counters: instructions per host-visible step and nesting of run loops must be 1 and 0 on trampolined paths; deep recursion (20000) and long loops must complete one instruction per step; ten exhaustion probes (recursion through natives, deep JSON, huge sizes) run in a memory-limited worker, their deaths are the known findings E2/E3.",
    note="Trusted: Coq kernel; tools/translate.py (regex/brace-matching reader of Rust sources); the instruction/run-depth hooks; Rust harness and worker isolation (prlimit). Not carried by the model: the native stack and the allocator.",
    design_ref="DESIGN.md §5 C06"),
+ "C07": dict(
+   engine="Suspend",
+   technique="Coq proof over copy tables regenerated from save_state/from_saved_state by the translator (every state-holding field of the running frame and of every caller frame survives a suspension) + Coq proof of schedule independence on the ledger model of Interpreter::step + differential runs: host-suspending order() vs in-program synchronous stub over await-position templates, generated programs and host schedules; sync_result evaluated inside Coq",
+   text="Proof: tools/translate.py reads, on every run, the field lists of BytecodeVM/SavedVmState/TrampolineFrame/SavedTrampolineFrame and where each field of the record literals in save_state and from_saved_state comes from. Suspend/Model.v gives these tables a meaning (records as total maps, an entry copies one field); c07_running_frame_survives and c07_caller_frames_survive prove, against the regenerated tables, that restore(save vm) agrees with vm on all 12 state-holding fields of the running frame (ip, chunk, registers, call_stack, try_stack, this_value, exception_value, saved_env_stack, arguments, new_target, current_constructor, pending_completion) and on all 16 of every caller frame, for every VM and any number of frames. c07_schedule_independent: on Host.Ledger (Interpreter::step's resume logic, tied by the C08 trace correspondence) any run that completes under any honest host schedule (extra steps, early/late/repeated/batched/reordered answers) has seen exactly the synchronous run's values; non-vacuity witnesses by vm_compute. c07_generator_yield_refuted (known finding Y1) and c07_prefix_refuted (the five fields lost before fix 66c9150). Tie/search on every run: 58 await-position templates x 6 (thorough 30) schedules, 150 (3000) generated programs x 3 schedules, 120 (480) ledger-event programs x 3 schedules against sync_result evaluated in Coq, 13 generator templates against node.",
+   note="Trusted: Coq kernel + vm_compute; tools/translate.py (brace-matching reader; classifies a field initialiser by the first self./frame./state./saved. path it mentions); the meaning given to a table entry (clone/map/re-guard preserve the value); Rust harness auto-host; node 20 for the generator templates. Not in the model: Interpreter.env and the wait graph (which context resumes first) - covered by the behavioural streams only; promise combinators beyond all/allSettled templates.",
+   design_ref="DESIGN.md §5 C07"),
 }
 
 NOT_YET = "not claimed yet in this revision: its model/theorem pair is not built; see DESIGN.md §5 and §8 (build order)"
